@@ -18,6 +18,7 @@ pub mod c16;
 pub mod c17;
 pub mod c18;
 pub mod c19;
+pub mod c20;
 
 pub struct Prop {
     pub id: &'static str,
@@ -60,6 +61,7 @@ pub fn get(id: &str) -> Option<Prop> {
         "C17" => Some(c17::prop()),
         "C18" => Some(c18::prop()),
         "C19" => Some(c19::prop()),
+        "C20" => Some(c20::prop()),
         _ => None,
     }
 }
@@ -68,6 +70,7 @@ pub fn get(id: &str) -> Option<Prop> {
 pub fn child(args: &[String]) -> i32 {
     match args.first().map(String::as_str) {
         Some("c11") => c11::child(&args[1..]),
+        Some("c20utc") => c20::child_utc(),
         _ => 2,
     }
 }
